@@ -90,7 +90,7 @@ pub fn run_case<G: AffineRepr>(run: u64, case: &Case, st: &mut Stats) {
             proof: p,
         });
     }
-    let bp = gens_with_history::<G>(&case.cap, 1);
+    let bp = gens_with_history::<G>(&case.cap, parties_for(&case.cap));
     // all members share the Pedersen bases of session 0
     let pc = pc_gens_for::<G>(&case.sessions.get(0).map(|s| s.st.bases.clone()).unwrap_or(Bases::Default));
     // 3. individual verdicts (fresh verifier each)
@@ -162,6 +162,12 @@ pub fn case_for(seed: u64, tier: Tier, run: u64) -> Case {
         1 => 1,
         _ => 1 + below(&mut rng, maxn),
     };
+    // sometimes every member is a gate-free circuit (linear constraints over commitments only)
+    let gate_free = chance(&mut rng, 1, 10);
+    if gate_free {
+        kn.max_gates = 0;
+        kn.max_blocks = 0;
+    }
     let mut sessions: Vec<SessionCase> = (0..ns).map(|_| gen_session_case(&mut rng, curve, &kn)).collect();
     let mut wfaults: Vec<Option<WFault>> = vec![None; ns];
     let mut members: Vec<Member> = (0..ns).map(|i| Member { stmt: i, proof: i, tamper: Tamper::None }).collect();
@@ -286,6 +292,9 @@ pub fn case_for(seed: u64, tier: Tier, run: u64) -> Case {
             }
             label = "quadratic-weight-cancelling-quadruple".into();
         }
+    }
+    if gate_free {
+        label = format!("{}+all-gate-free", label);
     }
     let need = sessions.iter().map(|s| shape_of(&s.st).3).max().unwrap_or(1);
     let mut cap = gen_cap_history(&mut rng, need);
